@@ -182,6 +182,8 @@ func runC11(c *Ctx) {
 				r.Bad("C11.R1", FuncID(fn), "delegates "+t, p.Pos(ta.Pos()), "the "+t+" clause of appendPDFObject neither delegates to "+t+".PDFString nor reads all fields of the value (an indirect reference's generation number, a name's/strings's escaping): the object-stream writer path and the direct path would emit different tokens")
 			}
 		}
+	} else {
+		r.Bad("C11.R1", "pkg/pdfcpu.appendPDFObject", "anchor", "", "UNRESOLVED-ANCHOR: function not found")
 	}
 	// ---- R2 separators
 	selfDelimiting := map[string]bool{"Dict": true, "Array": true, "Name": true, "StringLiteral": true, "HexLiteral": true}
@@ -671,6 +673,8 @@ func checkByteExactCodecs(c *Ctx) {
 		} else {
 			r.Bad("C12.R3", FuncID(fn), "returns the buffer", p.Pos(fn.Pos()), "the unescaped bytes pass through "+why+" before they are returned: content-dependent post-processing makes Unescape(Escape(b)) differ from b for binary strings")
 		}
+	} else {
+		r.Bad("C12.R3", "pkg/pdfcpu/types.Unescape", "anchor", "", "UNRESOLVED-ANCHOR: function not found")
 	}
 }
 
